@@ -165,12 +165,19 @@ def run(ctx):
                          observed=float(np.linalg.norm(g)))
     # scaling all weights by a constant changes nothing
     if wts is not None:
-      with warnings.catch_warnings():
-        warnings.simplefilter('ignore')
-        e2 = LSML(**kw).fit(Q, weights=np.asarray(wts, dtype=float) * 8.0)     # a power of two: the normalised weights are bit-identical, so no step decision can flip on rounding
-      ctx.count('weight_scale', 1)
-      if not np.allclose(e2.get_mahalanobis_matrix(), M, rtol=1e-6, atol=1e-9):
-        ctx.fail_input('weight_scale', 'multiplying all weights by a constant changes the result', inp)
+      # powers of two: the normalised weights are bit-identical, so no step decision can flip on rounding; "any positive scale"
+      # includes weights far below and above 1
+      for c in (8.0, 2.0 ** -70, 2.0 ** -400, 2.0 ** 300):
+        try:
+          with warnings.catch_warnings():
+            warnings.simplefilter('ignore')
+            e2 = LSML(**kw).fit(Q, weights=np.asarray(wts, dtype=float) * c)
+        except Exception as ex:
+          ctx.fail_input('weight_scale', 'weights multiplied by 2^%d: fit raises %s' % (int(np.log2(c)), type(ex).__name__), inp, observed=str(ex)[:200])
+          continue
+        ctx.count('weight_scale', 1)
+        if not np.allclose(e2.get_mahalanobis_matrix(), M, rtol=1e-6, atol=1e-9):
+          ctx.fail_input('weight_scale', 'multiplying all weights by a constant (2^%d) changes the result' % int(np.log2(c)), inp)
     ctx.seen(('fit', i, prior, wkind), True)
   # prior returned when every constraint already holds
   for rep in range(6 if thorough else 2):
